@@ -252,9 +252,24 @@ void CaptureModulePayload::setData(const std::string_view deviceDescription,
     payloadData.resize(newSize);
 }
 
-bool CaptureModulePayload::isValidPayload([[maybe_unused]] const uint8_t* data, const size_t size)
+bool CaptureModulePayload::isValidPayload(const uint8_t* data, const size_t size)
 {
-    return (size >= sizeof(Header));
+    if (size < sizeof(Header))
+        return false;
+
+    // Four strings and the vendor data block, each prefixed by its 16-bit length, must lie inside the payload
+    size_t pos = sizeof(Header);
+    for (int i = 0; i < 5; ++i)
+    {
+        if (size - pos < sizeof(uint16_t))
+            return false;
+        const size_t length = (static_cast<size_t>(data[pos]) << 8) | data[pos + 1];
+        pos += sizeof(uint16_t);
+        if (size - pos < length)
+            return false;
+        pos += length;
+    }
+    return true;
 }
 
 const CaptureModulePayload::Header* CaptureModulePayload::getHeader() const
